@@ -120,3 +120,9 @@ fire("C70", "probability-diagonalisation-appends-to-the-circuit-from-kwargs",
      "R-C70-shared", "_measure_probability")
 silent("C70", "projector-sampling-copies-with-the-copy-module",
        [(_DC, "            stim_circ = stim_circuit.copy()\n            stim_circ.append_from_stim_program_text(\"M \"", "            stim_circ = stim_circuit.copy()\n            stim_circ = stim_circ.copy()\n            stim_circ.append_from_stim_program_text(\"M \"")])
+
+# --- R-C70-memo
+fire("C70", "stim-translation-memoised-by-name-and-wires",
+     [(_DC, "def _pl_op_to_stim(op):\n", "_STIM_CACHE = {}\n\n\ndef _pl_op_to_stim(op):\n    cache_key = (op.name, op.wires)\n    cached = _STIM_CACHE.get(cache_key)\n    if cached is not None:\n        return cached\n"),
+      (_DC, "    return stim_op, \" \".join(stim_tg)", "    stim_instruction = (stim_op, \" \".join(stim_tg))\n    _STIM_CACHE[cache_key] = stim_instruction\n    return stim_instruction")],
+     "R-C70-memo", "_pl_op_to_stim")
